@@ -1,5 +1,9 @@
 import RagcModel.Model.Fasta
 import RagcModel.Lemmas.Fasta
+import RagcModel.Model.EndToEnd
+import RagcModel.Lemmas.EndToEnd
+import RagcModel.Props.C01
+import RagcModel.Props.C17
 /-!
 # C16 — every successfully created archive is fully extractable (any FASTA text)
 
@@ -14,6 +18,13 @@ header without sequence is an empty contig, a record without a name is an error)
 mapping and the normalisation are as documented (with one precisely stated exception: the 11
 non-letter bytes above `@`), every presentation of well-formed records parses to the same thing
 (`parse_render`), and no record with a base is dropped (`no_record_dropped`, full statement).
+
+Last section — the composition with C01 (`read_write`: decode ∘ write = id for ALL decisions) and C17
+(`getset_concat`): `Model/EndToEnd.lean` composes the layer models into `createModel` (text in,
+archive bytes out) and `extractModel` (archive bytes in, text out), and `create_extract_text` is the
+property's sentence as ONE theorem over text; `create_extract_presentation` (C19 through the
+archive) and `getset_of_create` (C17 on the decoded archive) are corollaries. What is still outside
+is listed in the comment block at the end of the file.
 -/
 namespace Ragc.Props.C16
 open Ragc.Fasta
@@ -164,5 +175,476 @@ set_option maxRecDepth 8192 in
 /-- `>  \nAC\n>b\nAC\n` -/
 example : parseFile [62, 32, 32, 10, 65, 67, 10, 62, 98, 10, 65, 67, 10] = none := by
   apply empty_name_is_error; decide
+
+/-! ## create then extract, over TEXT (composition of C16 + C01 + C17)
+
+`Model/EndToEnd.lean`: `createModel cfg files dec zc` = parse every input file (`parseFile`), name
+samples as `MultiFileIterator` does, skip records without a base, register in first-seen order,
+`Writer.writeArchive` with the compressor's choices `dec` as data; `extractModel bs zd s` = the
+independent decoder, look `s` up, `outLetter`, `GenomeWriter` layout.
+
+Vocabulary (all in `Lemmas/EndToEnd.lean`, all computable):
+* `textRecords files` — the records of the input TEXT that have a base, in command-line / file
+  order, as `(sample, name, raw sequence lines)`: over `specRecords` (leading blank lines do not
+  count, a record is a header line and every line up to the next one), `name = headerId` of the
+  header line, `sample` = the PanSN part of the name if it has ≥ 3 `#`-fields, else the file stem;
+* `recordsOfSample norm recs s` — the `(name, norm sequence)` of the records of sample `s`, in order;
+* `fastaText` — `>name`, 80 columns, LF;
+* `inputOf files` — the compressor's input as a function of the text (`DecisionsOK` speaks about it);
+* `admissible files` — `createSamples` accepts: at least one file, every path names a file and
+  every record has a name (`readable`), not (one file with a sample name coming back after another
+  sample), no empty sample name, no two records with a base under the same (sample, name).
+-/
+
+section EndToEnd
+open Ragc.EndToEnd
+
+/-- **When `createModel` answers**, exactly: the inputs are `admissible` and the reference writer
+answers on `inputOf files`. Every other case is `none` — `createOutcome` says which: an error exit
+(`noInputs`, `emptyName`, `unsortedSingleFile`) or outside the composed model (`badPath`,
+`emptySampleName`, `duplicateContig`, `writer`). -/
+theorem create_answers_iff (cfg : Ragc.Writer.Cfg) (files : List InFile) (dec : Ragc.Writer.Decisions)
+    (zc : Nat → List Nat → List Nat) (bs : List Nat) :
+    createModel cfg files dec zc = some bs ↔
+      admissible files ∧ Ragc.Writer.writeArchive cfg (inputOf files) dec zc = some bs :=
+  createModel_some_iff cfg files dec zc bs
+
+/-- Two input files: `A.fa` = `>c\nacgtAC\nGTAC\n>e\n>d\nG-N\r\nc\n` (lower case, two lines, a record
+without sequence, a gap, a CRLF) and `x.fa` = `>B#1#c\nACGGACGTAC` (PanSN header, no final newline). -/
+def exFiles : List InFile :=
+  [([65, 46, 102, 97],
+    [62, 99, 10, 97, 99, 103, 116, 65, 67, 10, 71, 84, 65, 67, 10, 62, 101, 10, 62, 100, 10,
+     71, 45, 78, 13, 10, 99, 10]),
+   ([120, 46, 102, 97], [62, 66, 35, 49, 35, 99, 10, 65, 67, 71, 71, 65, 67, 71, 84, 65, 67])]
+
+/-- `k = 3`, `min_match_len = 10`, segment size 10, level 17 (the configuration of C01's example) -/
+def exCfg : Ragc.Writer.Cfg := ⟨3, 10, 10, 17⟩
+
+/-- the input the compressor gets from `exFiles`: sample `A` (file stem) with `c`, `d`; sample
+`B#1` (PanSN) with `B#1#c` -/
+def exInp : List Ragc.Writer.Sample :=
+  [⟨[65], [⟨[99], [0, 1, 2, 3, 0, 1, 2, 3, 0, 1]⟩, ⟨[100], [2, 4, 1]⟩]⟩,
+   ⟨[66, 35, 49], [⟨[66, 35, 49, 35, 99], [0, 1, 2, 2, 0, 1, 2, 3, 0, 1]⟩]⟩]
+
+/-- decisions: `c` of `A` in two 3-overlapping pieces, LZ group 16 holds its first piece (reference)
+and the first piece of `B#1#c` (a real delta), raw group 0 the other three pieces, one stored
+reverse-complemented -/
+def exDec : Ragc.Writer.Decisions :=
+  ⟨[[[⟨6, 16, 0, false⟩, ⟨7, 0, 0, true⟩], [⟨3, 0, 1, false⟩]], [[⟨6, 16, 1, false⟩, ⟨7, 0, 2, false⟩]]],
+   [⟨16, false, [(0, 0, 0), (1, 0, 0)]⟩, ⟨0, false, [(0, 0, 1), (0, 1, 0), (1, 0, 1)]⟩]⟩
+
+def zcToy : Nat → List Nat → List Nat := fun l x => l :: x
+def zdToy : List Nat → Option (List Nat) := fun c => some c.tail
+
+set_option maxRecDepth 100000 in
+-- `decide +kernel` (here and in the examples below) only evaluates closed terms of the executable
+-- models; it is not a step of any theorem.
+example : ∃ bs, createModel exCfg exFiles exDec zcToy = some bs := by
+  have h1 : admissible exFiles := by decide +kernel
+  have h2 : inputOf exFiles = exInp := by decide +kernel
+  have h6 : (Ragc.Writer.writeArchive exCfg exInp exDec zcToy).isSome = true := by decide +kernel
+  obtain ⟨bs, hbs⟩ := Option.isSome_iff_exists.mp h6
+  exact ⟨bs, (create_answers_iff _ _ _ _ _).mpr ⟨h1, by rw [h2]; exact hbs⟩⟩
+
+/-- **The error side.** A record without a name in any input file: there is no archive
+(`create` exits with an error; if an earlier path is outside the model the outcome is `outside`) —
+and, for texts that are well formed in the sense of `no_record_dropped` (`wellFormedText`: after
+leading blank lines the first line is a header line, every header has a name), reading never is
+the reason why `create` fails. -/
+theorem create_error_side (cfg : Ragc.Writer.Cfg) (files : List InFile) (dec : Ragc.Writer.Decisions)
+    (zc : Nat → List Nat → List Nat) :
+    ((∃ f ∈ files, (specRecords f.2).any (fun p => headerId p.1 = []) = true) →
+      createModel cfg files dec zc = none) ∧
+    ((∀ f ∈ files, wellFormedText f.2 = true) →
+      createOutcome cfg files dec zc ≠ .error (.error .emptyName)) := by
+  constructor
+  · rintro ⟨f, hf, hany⟩
+    cases hc : createModel cfg files dec zc with
+    | none => rfl
+    | some bs =>
+      exfalso
+      have hr := ((create_answers_iff cfg files dec zc bs).mp hc).1.2.1 f hf
+      simp only [readable, Bool.and_eq_true] at hr
+      obtain ⟨p, hp, he⟩ := List.any_eq_true.mp hany
+      have := List.all_eq_true.mp hr.2 p hp
+      simp only [good, decide_eq_true_eq] at this he
+      exact this he
+  · intro hwf h
+    obtain ⟨f, hf, hb⟩ := createOutcome_emptyName cfg files dec zc h
+    rw [good_of_wellFormed f.2 (hwf f hf)] at hb
+    cases hb
+
+set_option maxRecDepth 8192 in
+/-- `A.fa` = `>  \nAC\n`: no archive. -/
+example : createModel exCfg [([65, 46, 102, 97], [62, 32, 32, 10, 65, 67, 10])] exDec zcToy = none :=
+  (create_error_side _ _ _ _).1 ⟨_, List.mem_singleton.mpr rfl, by decide⟩
+
+/-- **create then extract, general form**: for ALL byte strings as input texts (no
+well-formedness asked: `createModel = some` already says every record has a name). As
+`create_extract_text` below, with `normaliseCode` in place of `normalise`: the documented
+normalisation except that the 11 non-letter bytes above `@` are kept and read back as `N`
+(`convert_normalise_general`). -/
+theorem create_extract_text_general (cfg : Ragc.Writer.Cfg) (files : List InFile)
+    (dec : Ragc.Writer.Decisions) (zc : Nat → List Nat → List Nat) (zd : List Nat → Option (List Nat))
+    (bs : List Nat) (hdec : Ragc.Writer.DecisionsOK cfg (inputOf files) dec)
+    (hz : ∀ l x, zd (zc l x) = some x) (hne : ∀ l x, zc l x = [] → x = [])
+    (hc : createModel cfg files dec zc = some bs) :
+    listModel bs zd = some (Ragc.Details.firstSeen ((textRecords files).map (·.1))) ∧
+    (∀ s, extractModel bs zd s =
+      if s ∈ (textRecords files).map (·.1) then
+        some (fastaText (recordsOfSample normaliseCode (textRecords files) s))
+      else none) ∧
+    ∃ d, Ragc.Agc3.decodeArchive bs zd = .ok d ∧ d.violations = [] ∧
+      (∀ f ∈ files, ∀ p ∈ specRecords f.2, hasBase p = true →
+        ∃ smp ∈ d.samples, smp.name = sampleOf (fileSample f.1) (headerId p.1) ∧
+          ∃ c ∈ smp.contigs, c.name = headerId p.1 ∧ c.bases.map outLetter = normaliseCode p.2) := by
+  obtain ⟨d, h1, h2, h3, h4, h5⟩ := create_extract_general cfg files dec zc zd bs hdec hz hne hc
+  refine ⟨h4, h5, d, h1, h2, ?_⟩
+  intro f hf p hp hb
+  exact record_in_view normaliseCode (textRecords files) d.samples h3 _
+    ((mem_textRecords files _).mpr ⟨f, hf, p, hp, hb, rfl⟩)
+
+set_option maxRecDepth 100000 in
+example : Ragc.Writer.DecisionsOK exCfg (inputOf exFiles) exDec ∧
+    (∀ l x, zdToy (zcToy l x) = some x) ∧ (∀ l x, zcToy l x = [] → x = []) :=
+  ⟨by decide +kernel, fun _ _ => rfl, fun _ _ h => by simp [zcToy] at h⟩
+
+/-- **C16 ∘ C01 over text: create then extract.** For every list of `(path, text)` inputs whose
+texts are well formed (`wellFormedText`, the predicate of `no_record_dropped`: after leading blank
+lines the first line is a header line, and every header has a non-empty name) and whose sequence
+lines are free of the 11 non-letter bytes above `@` (`SeqClean`; C16 quantifies over letters,
+digits and gaps), every configuration and ALL decisions of the compressor that are well formed for
+the input (`DecisionsOK`: `k ≥ 1`, `u32` parameters, names over the bytes 1..127, any tiling of each
+contig, any group / orientation / arrival order / group creation order / tuple flags), any ZSTD
+pair with the two C12 facts:
+
+* reading is never why `create` fails (the repaired reader errs only on a record without a name,
+  `create_error_side`); and whenever `createModel` answers with archive bytes `bs`,
+* `listset` is the list of sample names of the text's records in first-seen order,
+* for EVERY sample `s` of that list `extractModel bs zd s` is exactly the `GenomeWriter` text of
+  the records of `s`, in input order, each with its name and its sequence under the documented
+  normalisation (`normalise`: non-letters dropped, upper case, letters outside the IUPAC set → `N`);
+  any other name is not found,
+* the archive decodes with NO breached format rule, and every record of every input file that has
+  at least one base is a contig of its sample with exactly its normalised sequence: none is left out.
+
+`wellFormedText` is used for the first item only: `createModel = some` by itself implies that
+every record has a name (`create_extract_text_general` is the statement without it). -/
+theorem create_extract_text (cfg : Ragc.Writer.Cfg) (files : List InFile)
+    (dec : Ragc.Writer.Decisions) (zc : Nat → List Nat → List Nat) (zd : List Nat → Option (List Nat))
+    (hwf : ∀ f ∈ files, wellFormedText f.2 = true) (hclean : SeqClean files)
+    (hdec : Ragc.Writer.DecisionsOK cfg (inputOf files) dec)
+    (hz : ∀ l x, zd (zc l x) = some x) (hne : ∀ l x, zc l x = [] → x = []) :
+    createOutcome cfg files dec zc ≠ .error (.error .emptyName) ∧
+    ∀ bs, createModel cfg files dec zc = some bs →
+      listModel bs zd = some (Ragc.Details.firstSeen ((textRecords files).map (·.1))) ∧
+      (∀ s ∈ Ragc.Details.firstSeen ((textRecords files).map (·.1)),
+        extractModel bs zd s = some (fastaText (recordsOfSample normalise (textRecords files) s))) ∧
+      (∀ s, s ∉ Ragc.Details.firstSeen ((textRecords files).map (·.1)) → extractModel bs zd s = none) ∧
+      ∃ d, Ragc.Agc3.decodeArchive bs zd = .ok d ∧ d.violations = [] ∧
+        (∀ f ∈ files, ∀ p ∈ specRecords f.2, hasBase p = true →
+          ∃ smp ∈ d.samples, smp.name = sampleOf (fileSample f.1) (headerId p.1) ∧
+            ∃ c ∈ smp.contigs, c.name = headerId p.1 ∧ c.bases.map outLetter = normalise p.2) := by
+  refine ⟨(create_error_side cfg files dec zc).2 hwf, ?_⟩
+  intro bs hc
+  obtain ⟨h1, h2, d, h3, h4, h5⟩ := create_extract_text_general cfg files dec zc zd bs hdec hz hne hc
+  refine ⟨h1, ?_, ?_, d, h3, h4, ?_⟩
+  · intro s hs
+    have hm := (mem_firstSeen _ s).mp hs
+    rw [h2 s, if_pos hm, recordsOfSample_clean files hclean]
+  · intro s hs
+    have hm : ¬ s ∈ (textRecords files).map (·.1) := fun e => hs ((mem_firstSeen _ s).mpr e)
+    rw [h2 s, if_neg hm]
+  · intro f hf p hp hb
+    obtain ⟨smp, a1, a2, c, a3, a4, a5⟩ := h5 f hf p hp hb
+    exact ⟨smp, a1, a2, c, a3, a4, by rw [a5]; exact normaliseCode_eq_normalise (hclean f hf p hp)⟩
+
+set_option maxRecDepth 100000 in
+/-- Non-vacuity, evaluated on `exFiles` (toy ZSTD `zc l x = l :: x`): `create` answers; `listset`
+is `A`, `B#1`; `getset A` prints `>c\nACGTACGTAC\n>d\nGNC\n` (the record `e` without sequence is
+skipped, the gap and the line ends are dropped, lower case is raised), `getset B#1` prints
+`>B#1#c\nACGGACGTAC\n`. -/
+example : ∃ bs, createModel exCfg exFiles exDec zcToy = some bs ∧
+    listModel bs zdToy = some [[65], [66, 35, 49]] ∧
+    extractModel bs zdToy [65] = some [62, 99, 10, 65, 67, 71, 84, 65, 67, 71, 84, 65, 67, 10,
+      62, 100, 10, 71, 78, 67, 10] ∧
+    extractModel bs zdToy [66, 35, 49] = some [62, 66, 35, 49, 35, 99, 10,
+      65, 67, 71, 71, 65, 67, 71, 84, 65, 67, 10] ∧
+    extractModel bs zdToy [66] = none := by
+  have h1 : admissible exFiles := by decide +kernel
+  have h2 : inputOf exFiles = exInp := by decide +kernel
+  have h3 : ∀ f ∈ exFiles, wellFormedText f.2 = true := by decide +kernel
+  have h4 : SeqClean exFiles := by unfold SeqClean; decide +kernel
+  have h5 : Ragc.Writer.DecisionsOK exCfg exInp exDec := by decide +kernel
+  have h6 : (Ragc.Writer.writeArchive exCfg exInp exDec zcToy).isSome = true := by decide +kernel
+  have h7 : textRecords exFiles =
+      [([65], [99], [97, 99, 103, 116, 65, 67, 10, 71, 84, 65, 67, 10]),
+       ([65], [100], [71, 45, 78, 13, 10, 99, 10]),
+       ([66, 35, 49], [66, 35, 49, 35, 99], [65, 67, 71, 71, 65, 67, 71, 84, 65, 67])] := by
+    decide +kernel
+  obtain ⟨bs, hbs⟩ := Option.isSome_iff_exists.mp h6
+  have hc : createModel exCfg exFiles exDec zcToy = some bs :=
+    (create_answers_iff _ _ _ _ _).mpr ⟨h1, by rw [h2]; exact hbs⟩
+  obtain ⟨_, hall⟩ := create_extract_text exCfg exFiles exDec zcToy zdToy h3 h4 (by rw [h2]; exact h5)
+    (fun _ _ => rfl) (fun _ _ h => by simp [zcToy] at h)
+  obtain ⟨a1, a2, a3, _⟩ := hall bs hc
+  rw [h7] at a1 a2 a3
+  refine ⟨bs, hc, by rw [a1]; decide +kernel, ?_, ?_, ?_⟩
+  · rw [a2 [65] (by decide +kernel)]; decide +kernel
+  · rw [a2 [66, 35, 49] (by decide +kernel)]; decide +kernel
+  · exact a3 [66] (by decide +kernel)
+
+/-- **Extraction does not depend on the presentation** (C19 through the archive). Two lists of
+input files with the same paths presenting the same records — each record in ANY line width `≥ 1`,
+LF or CRLF, any case pattern, each file with or without final newline (`ValidPres`: header without
+`\n` and with a name, at least one base, all letters):
+
+* `create` gets the same input from both: with the same configuration and decisions `createModel`
+  returns the same bytes or fails on both;
+* and whatever the configurations, decisions and ZSTDs of the two runs are (different `k`, other
+  groupings, another schedule), `listset` and `getset` of every name give the same answer. -/
+theorem create_extract_presentation (P Q : List (Bytes × Bool × List (Rec × RecStyle)))
+    (hP : ∀ f ∈ P, ValidPres f.2.2) (hQ : ∀ f ∈ Q, ValidPres f.2.2)
+    (hsame : P.map (fun f => (f.1, f.2.2.map (·.1))) = Q.map (fun f => (f.1, f.2.2.map (·.1)))) :
+    (∀ cfg dec zc, createModel cfg (filesOf P) dec zc = createModel cfg (filesOf Q) dec zc) ∧
+    ∀ (cfg₁ cfg₂ : Ragc.Writer.Cfg) (dec₁ dec₂ : Ragc.Writer.Decisions)
+      (zc₁ zc₂ : Nat → List Nat → List Nat) (zd₁ zd₂ : List Nat → Option (List Nat)) (bs₁ bs₂ : List Nat),
+      Ragc.Writer.DecisionsOK cfg₁ (inputOf (filesOf P)) dec₁ →
+      Ragc.Writer.DecisionsOK cfg₂ (inputOf (filesOf Q)) dec₂ →
+      (∀ l x, zd₁ (zc₁ l x) = some x) → (∀ l x, zc₁ l x = [] → x = []) →
+      (∀ l x, zd₂ (zc₂ l x) = some x) → (∀ l x, zc₂ l x = [] → x = []) →
+      createModel cfg₁ (filesOf P) dec₁ zc₁ = some bs₁ →
+      createModel cfg₂ (filesOf Q) dec₂ zc₂ = some bs₂ →
+      listModel bs₁ zd₁ = listModel bs₂ zd₂ ∧ ∀ s, extractModel bs₁ zd₁ s = extractModel bs₂ zd₂ s := by
+  have hcs := createSamples_filesOf P Q hP hQ hsame
+  constructor
+  · intro cfg dec zc
+    simp only [createModel, createOutcome, hcs]
+  · intro cfg₁ cfg₂ dec₁ dec₂ zc₁ zc₂ zd₁ zd₂ bs₁ bs₂ hd1 hd2 hz1 hn1 hz2 hn2 hc1 hc2
+    obtain ⟨ha1, hw1⟩ := (create_answers_iff _ _ _ _ _).mp hc1
+    obtain ⟨ha2, hw2⟩ := (create_answers_iff _ _ _ _ _).mp hc2
+    have hinp : inputOf (filesOf P) = inputOf (filesOf Q) := by
+      have e1 := (createSamples_ok_iff (filesOf P) _).mpr ⟨ha1, rfl⟩
+      have e2 := (createSamples_ok_iff (filesOf Q) _).mpr ⟨ha2, rfl⟩
+      rw [hcs, e2] at e1
+      injection e1 with e1
+      exact e1.symm
+    obtain ⟨_, _, _, _, l1, x1⟩ := extract_of_samples cfg₁ _ dec₁ zc₁ zd₁ bs₁ hd1 hz1 hn1
+      (codesOK_inputOf _) hw1
+    obtain ⟨_, _, _, _, l2, x2⟩ := extract_of_samples cfg₂ _ dec₂ zc₂ zd₂ bs₂ hd2 hz2 hn2
+      (codesOK_inputOf _) hw2
+    refine ⟨by rw [l1, l2, hinp], fun s => by rw [x1 s, x2 s, hinp]⟩
+
+/-- the records of `exFiles` with a base, as `A.fa` / `x.fa` present them … -/
+def exP : List (Bytes × Bool × List (Rec × RecStyle)) :=
+  [([65, 46, 102, 97], true,
+    [(⟨[99], [65, 67, 71, 84, 65, 67, 71, 84, 65, 67]⟩, ⟨6, false, [true, true, true, true]⟩),
+     (⟨[100], [71, 78, 67]⟩, ⟨2, true, [false, false, true]⟩)]),
+   ([120, 46, 102, 97], false, [(⟨[66, 35, 49, 35, 99], [65, 67, 71, 71, 65, 67, 71, 84, 65, 67]⟩, ⟨80, false, []⟩)])]
+
+/-- … and the same records in one column, CRLF, lower case, no final newline / 3 columns -/
+def exQ : List (Bytes × Bool × List (Rec × RecStyle)) :=
+  [([65, 46, 102, 97], false,
+    [(⟨[99], [65, 67, 71, 84, 65, 67, 71, 84, 65, 67]⟩, ⟨1, true, List.replicate 10 true⟩),
+     (⟨[100], [71, 78, 67]⟩, ⟨80, false, []⟩)]),
+   ([120, 46, 102, 97], true, [(⟨[66, 35, 49, 35, 99], [65, 67, 71, 71, 65, 67, 71, 84, 65, 67]⟩, ⟨3, true, [true]⟩)])]
+
+set_option maxRecDepth 100000 in
+example : (∀ f ∈ exP, ValidPres f.2.2) ∧ (∀ f ∈ exQ, ValidPres f.2.2) ∧
+    exP.map (fun f => (f.1, f.2.2.map (·.1))) = exQ.map (fun f => (f.1, f.2.2.map (·.1))) ∧
+    filesOf exP ≠ filesOf exQ ∧ inputOf (filesOf exP) = exInp ∧ admissible (filesOf exP) := by
+  refine ⟨by decide +kernel, by decide +kernel, by decide +kernel, by decide +kernel,
+    by decide +kernel, by decide +kernel⟩
+
+/-- **`getset` on the created archive** (C17 on top): run the CLI model's `getset` on the decoded
+archive (`cliArchive`) with ANY non-empty list of names of samples of the input (repeats allowed,
+any order): it exits 0 and prints — on stdout after what was there, or as the complete content of
+the `-o` file — the concatenation, in request order, of each sample's records in the documented
+normalisation; no temp file is left. Hypotheses as in `create_extract_text`. -/
+theorem getset_of_create (cfg : Ragc.Writer.Cfg) (files : List InFile)
+    (dec : Ragc.Writer.Decisions) (zc : Nat → List Nat → List Nat) (zd : List Nat → Option (List Nat))
+    (bs : List Nat) (hclean : SeqClean files)
+    (hdec : Ragc.Writer.DecisionsOK cfg (inputOf files) dec)
+    (hz : ∀ l x, zd (zc l x) = some x) (hne : ∀ l x, zc l x = [] → x = [])
+    (hc : createModel cfg files dec zc = some bs)
+    (ns : List Bytes) (hns : ns ≠ []) (hk : ∀ n ∈ ns, n ∈ (textRecords files).map (·.1))
+    (oc : Bool) (fs : Ragc.Cli.Fs) :
+    ∃ d, Ragc.Agc3.decodeArchive bs zd = .ok d ∧
+      Ragc.Cli.getset ⟨some (cliArchive d), oc, true⟩ ⟨ns, none⟩ .stdout fs =
+        (.ok, { fs with
+          stdout := fs.stdout ++
+            (ns.map (fun n => fastaText (recordsOfSample normalise (textRecords files) n))).flatten,
+          temp := none }) ∧
+      Ragc.Cli.getset ⟨some (cliArchive d), true, true⟩ ⟨ns, none⟩ .file fs =
+        (.ok, { fs with
+          out := some (ns.map (fun n => fastaText (recordsOfSample normalise (textRecords files) n))).flatten,
+          temp := none }) := by
+  obtain ⟨_, h2, d, h3, _, _⟩ := create_extract_text_general cfg files dec zc zd bs hdec hz hne hc
+  have hx : ∀ n ∈ ns, extractModel bs zd n =
+      some (fastaText (recordsOfSample normalise (textRecords files) n)) := by
+    intro n hn
+    rw [h2 n, if_pos (hk n hn), recordsOfSample_clean files hclean]
+  have hknown : ∀ n ∈ ns, (cliArchive d).known n = true := by
+    intro n hn
+    rw [(cli_fasta_known bs zd d h3 n).2, hx n hn]; rfl
+  have hf : ns.map (cliArchive d).fasta =
+      ns.map (fun n => fastaText (recordsOfSample normalise (textRecords files) n)) := by
+    apply List.map_congr_left
+    intro n hn
+    rw [(cli_fasta_known bs zd d h3 n).1, hx n hn]; rfl
+  obtain ⟨g1, g2⟩ := Ragc.Props.C17.getset_concat (cliArchive d) oc ns fs hns hknown
+  rw [hf] at g1 g2
+  exact ⟨d, h3, g1, g2⟩
+
+set_option maxRecDepth 100000 in
+/-- Non-vacuity: `getset B#1 A B#1` on the archive of `exFiles`. -/
+example : ∃ bs d, createModel exCfg exFiles exDec zcToy = some bs ∧
+    Ragc.Agc3.decodeArchive bs zdToy = .ok d ∧
+    (Ragc.Cli.getset ⟨some (cliArchive d), false, true⟩ ⟨[[66, 35, 49], [65], [66, 35, 49]], none⟩ .stdout
+        ⟨none, none, []⟩).2.stdout =
+      [62, 66, 35, 49, 35, 99, 10, 65, 67, 71, 71, 65, 67, 71, 84, 65, 67, 10] ++
+      [62, 99, 10, 65, 67, 71, 84, 65, 67, 71, 84, 65, 67, 10, 62, 100, 10, 71, 78, 67, 10] ++
+      [62, 66, 35, 49, 35, 99, 10, 65, 67, 71, 71, 65, 67, 71, 84, 65, 67, 10] := by
+  have h1 : admissible exFiles := by decide +kernel
+  have h2 : inputOf exFiles = exInp := by decide +kernel
+  have h3 : ∀ f ∈ exFiles, wellFormedText f.2 = true := by decide +kernel
+  have h4 : SeqClean exFiles := by unfold SeqClean; decide +kernel
+  have h5 : Ragc.Writer.DecisionsOK exCfg exInp exDec := by decide +kernel
+  have h6 : (Ragc.Writer.writeArchive exCfg exInp exDec zcToy).isSome = true := by decide +kernel
+  have h7 : textRecords exFiles =
+      [([65], [99], [97, 99, 103, 116, 65, 67, 10, 71, 84, 65, 67, 10]),
+       ([65], [100], [71, 45, 78, 13, 10, 99, 10]),
+       ([66, 35, 49], [66, 35, 49, 35, 99], [65, 67, 71, 71, 65, 67, 71, 84, 65, 67])] := by
+    decide +kernel
+  obtain ⟨bs, hbs⟩ := Option.isSome_iff_exists.mp h6
+  have hc : createModel exCfg exFiles exDec zcToy = some bs :=
+    (create_answers_iff _ _ _ _ _).mpr ⟨h1, by rw [h2]; exact hbs⟩
+  obtain ⟨d, hd, g1, _⟩ := getset_of_create exCfg exFiles exDec zcToy zdToy bs h4 (by rw [h2]; exact h5)
+    (fun _ _ => rfl) (fun _ _ h => by simp [zcToy] at h) hc [[66, 35, 49], [65], [66, 35, 49]]
+    (by decide) (by rw [h7]; decide +kernel) false ⟨none, none, []⟩
+  refine ⟨bs, d, hc, hd, ?_⟩
+  rw [g1, h7]
+  decide +kernel
+
+/-- **One PanSN file versus one file per sample, through the archive** (C19 `pansn_vs_files` composed
+with C01). When every header carries its sample (≥ 3 `#`-fields): the per-sample files — each in
+its own style, under any file names — and a single file presenting the same records in the same
+order in any style lead, whenever both `create` runs answer (the single-file run additionally
+needs the samples to be contiguous), to archives with the same `listset` and the same `getset`
+output for every name — whatever the two configurations, decisions and ZSTDs are. -/
+theorem create_extract_pansn_vs_files (files : List (Bytes × Bool × List (Rec × RecStyle)))
+    (single : Bytes) (fin : Bool) (all : List (Rec × RecStyle))
+    (hfiles : ∀ f ∈ files, ValidPres f.2.2) (hall : ValidPres all)
+    (hsame : all.map (·.1) = files.flatMap (fun f => f.2.2.map (·.1)))
+    (hpansn : ∀ f ∈ files, ∀ p ∈ f.2.2, IsPansn p.1)
+    (cfg₁ cfg₂ : Ragc.Writer.Cfg) (dec₁ dec₂ : Ragc.Writer.Decisions)
+    (zc₁ zc₂ : Nat → List Nat → List Nat) (zd₁ zd₂ : List Nat → Option (List Nat)) (bs₁ bs₂ : List Nat)
+    (hd1 : Ragc.Writer.DecisionsOK cfg₁ (inputOf (filesOf files)) dec₁)
+    (hd2 : Ragc.Writer.DecisionsOK cfg₂ (inputOf (filesOf [(single, fin, all)])) dec₂)
+    (hz1 : ∀ l x, zd₁ (zc₁ l x) = some x) (hn1 : ∀ l x, zc₁ l x = [] → x = [])
+    (hz2 : ∀ l x, zd₂ (zc₂ l x) = some x) (hn2 : ∀ l x, zc₂ l x = [] → x = [])
+    (hc1 : createModel cfg₁ (filesOf files) dec₁ zc₁ = some bs₁)
+    (hc2 : createModel cfg₂ (filesOf [(single, fin, all)]) dec₂ zc₂ = some bs₂) :
+    listModel bs₁ zd₁ = listModel bs₂ zd₂ ∧ ∀ s, extractModel bs₁ zd₁ s = extractModel bs₂ zd₂ s := by
+  obtain ⟨ha1, hw1⟩ := (create_answers_iff _ _ _ _ _).mp hc1
+  obtain ⟨ha2, hw2⟩ := (create_answers_iff _ _ _ _ _).mp hc2
+  have hinp : inputOf (filesOf files) = inputOf (filesOf [(single, fin, all)]) := by
+    rw [inputOf_filesOf files hfiles ha1.2.1,
+      inputOf_filesOf [(single, fin, all)] (by simpa using hall) ha2.2.1]
+    congr 1
+    simp only [List.flatMap_cons, List.flatMap_nil, List.append_nil, hsame, streamOf_flatMap]
+    apply flatMap_congr_left
+    intro f hf
+    apply streamOf_pansn
+    intro r hr
+    obtain ⟨p, hp, rfl⟩ := List.mem_map.mp hr
+    exact hpansn f hf p hp
+  obtain ⟨_, _, _, _, l1, x1⟩ := extract_of_samples cfg₁ _ dec₁ zc₁ zd₁ bs₁ hd1 hz1 hn1
+    (codesOK_inputOf _) hw1
+  obtain ⟨_, _, _, _, l2, x2⟩ := extract_of_samples cfg₂ _ dec₂ zc₂ zd₂ bs₂ hd2 hz2 hn2
+    (codesOK_inputOf _) hw2
+  exact ⟨by rw [l1, l2, hinp], fun s => by rw [x1 s, x2 s, hinp]⟩
+
+/-- two files `s0` (records `A#1#c`, `A#1#d`) and `s1` (`B#1#c`), and the single file `all.fa` -/
+def exPansnFiles : List (Bytes × Bool × List (Rec × RecStyle)) :=
+  [([115, 48], true,
+    [(⟨[65, 35, 49, 35, 99], [65, 67, 71, 84, 65, 67, 71, 84, 65, 67]⟩, ⟨60, false, []⟩),
+     (⟨[65, 35, 49, 35, 100], [71, 78, 67]⟩, ⟨60, false, []⟩)]),
+   ([115, 49], false, [(⟨[66, 35, 49, 35, 99], [65, 67, 71, 71, 65, 67, 71, 84, 65, 67]⟩, ⟨4, true, [true, true]⟩)])]
+
+def exPansnAll : List (Rec × RecStyle) :=
+  [(⟨[65, 35, 49, 35, 99], [65, 67, 71, 84, 65, 67, 71, 84, 65, 67]⟩, ⟨7, true, [true]⟩),
+   (⟨[65, 35, 49, 35, 100], [71, 78, 67]⟩, ⟨1, false, []⟩),
+   (⟨[66, 35, 49, 35, 99], [65, 67, 71, 71, 65, 67, 71, 84, 65, 67]⟩, ⟨80, false, []⟩)]
+
+set_option maxRecDepth 100000 in
+example : (∀ f ∈ exPansnFiles, ValidPres f.2.2) ∧ ValidPres exPansnAll ∧
+    exPansnAll.map (·.1) = exPansnFiles.flatMap (fun f => f.2.2.map (·.1)) ∧
+    (∀ f ∈ exPansnFiles, ∀ p ∈ f.2.2, IsPansn p.1) ∧
+    admissible (filesOf exPansnFiles) ∧ admissible (filesOf [([97, 108, 108, 46, 102, 97], true, exPansnAll)]) ∧
+    Ragc.Writer.DecisionsOK exCfg (inputOf (filesOf exPansnFiles)) exDec ∧
+    (Ragc.Writer.writeArchive exCfg (inputOf (filesOf exPansnFiles)) exDec zcToy).isSome = true := by
+  refine ⟨by decide +kernel, by decide +kernel, by decide +kernel, by decide +kernel,
+    by decide +kernel, by decide +kernel, by decide +kernel, by decide +kernel⟩
+
+/-- **The catalogue is the one `register_sample_contig` builds** (C03 `register_order`): for inputs
+that `createSamples` admits, registering the pushed `(sample, contig name)` pairs with the model of
+`CollectionV3::register_sample_contig` (`Details.registerAll`) succeeds and gives the sample list
+and the per-sample contig lists of `inputOf files`, the input `createModel` hands to the writer. -/
+theorem create_catalogue_is_registration (files : List InFile) (h : admissible files) :
+    ∃ ss, Ragc.Details.registerAll [] ((textRecords files).map (fun r => (r.1, r.2.1))) = some ss ∧
+      Ragc.Details.samplesList ss = (inputOf files).map (·.name) ∧
+      ∀ s ∈ inputOf files, (Ragc.Details.contigList ss s.name).getD [] = s.contigs.map (·.name) := by
+  have e : ((textRecords files).map code).map (fun r => (r.1, r.2.1))
+      = (textRecords files).map (fun r => (r.1, r.2.1)) := by
+    rw [List.map_map]; rfl
+  have := registration_agrees ((textRecords files).map code)
+    (by
+      intro r hr
+      obtain ⟨r0, hr0, rfl⟩ := List.mem_map.mp hr
+      exact h.2.2.2.1 r0 hr0)
+    (by rw [e]; exact h.2.2.2.2)
+  rw [e] at this
+  exact this
+
+set_option maxRecDepth 100000 in
+example : admissible exFiles ∧
+    (inputOf exFiles).map (fun s => (s.name, s.contigs.map (·.name)))
+      = [([65], [[99], [100]]), ([66, 35, 49], [[66, 35, 49, 35, 99]])] := by
+  refine ⟨by decide +kernel, by decide +kernel⟩
+
+end EndToEnd
+
+/-!
+## What the end-to-end section does NOT prove (and what covers it)
+
+`create_extract_text` is a theorem about the COMPOSED MODELS; nothing is left open, no glue is
+missing inside the models. What remains between it and the binary:
+
+1. **Model ↔ code.** `createModel` is `Fasta.parseFile`/`fileStream` (correspondence: C16/C19
+   harness) followed by `Writer.writeArchive` with the compressor's choices as DATA. That the real
+   compressor is an instance — its decisions satisfy `DecisionsOK` and `writeArchive` with those
+   decisions is the real file byte for byte — is checked per generated archive by the C02 harness,
+   not proved. `extractModel` uses the INDEPENDENT decoder `Agc3.decodeArchive`; that ragc's own
+   reader returns the same bases is the C02/C01 harness comparison (and C08 for the reader's state).
+2. **Duplicate records** (`Outside.duplicateContig`): two records with a base under the same
+   (sample, name) are outside the composition — `createModel` is `none` there although the real
+   `create` exits 0. Reading the code (`push`, agc_compressor.rs 1553-1559, ignores the `Ok(false)`
+   of `register_sample_contig`; C++ AGC skips the record with a message): the second contig is
+   compressed as well and its segments are placed over those of the first under the one catalogue
+   entry, so the archive lists ONE contig and at least one of the two records cannot be extracted —
+   a candidate violation of C16's last sentence, to be replayed on the code (witness: one file
+   `>a\nACGT…\n>a\nTTTT…\n`, or two files with the same stem and the same header). NOT run here.
+3. **Empty sample name** (`Outside.emptySampleName`: a file called `.fa`, `.fa.gz`, …):
+   `register_sample_contig` substitutes the first word of the contig name; not composed.
+4. **Names** are bytes 1..127 (inside `DecisionsOK`, from C03); invalid UTF-8 / non-ASCII white
+   space around headers, gzip framing and paths without a normal last component are outside
+   `Model/Fasta.lean` already.
+5. **`writeArchive = none`** (`Outside.writer`): `min_match_len < 4`, sizes outside `u32`/`u64`,
+   decisions that do not name the pieces.
+6. **`getset --prefix`** on the created archive is not restated here; `Props.C17.getset_prefix`
+   applies to `cliArchive d` in the same way `getset_concat` does in `getset_of_create` (sample
+   names of `inputOf files` are pairwise different: `nodup_firstSeen`).
+-/
 
 end Ragc.Props.C16
